@@ -12,6 +12,7 @@ ID = "C05"
 LEVEL = "exploration"
 CONTRACTS = True  # icontract postconditions on AlignedStream.read/peek/seek fire during this workload too
 STEP_BUDGET = 3_000_000  # line events per case; a case that exceeds it is reported as non-termination
+HANDLE_CLOSE_CHECK = True
 ANCHOR_FILES = ["dissect/hypervisor/disk/vdi.py"]
 RULE = (
     "VDI images written by an independent writer from a content model: block sizes 512 B..4 MiB, block maps "
